@@ -90,7 +90,7 @@ func (plugin *ResponseBasedThrottlingPlugin) OnResponse(
 	cachedResponse := CachedResponse{
 		ID:           onResponse.ID,
 		Body:         onResponse.Body,
-		Headers:      onResponse.Headers,
+		Headers:      utils.DeepCopyHeaders(onResponse.Headers),
 		Status:       onResponse.Status,
 		CreationTime: plugin.clock.Now(),
 	}
